@@ -45,11 +45,60 @@ def run(chk, repo):
     fits(chk, repo)
     responses(chk, repo)
     directions(chk, repo)
+    addressed(chk, repo)
     from . import c15
+    chk.doc("R15.4", "the mailbox counter survives a failed exchange "
+                     "(shared with C15)")
+    c15.section(chk, repo)
     chk.doc("R15.1", "an exchange holds the mailbox lock from its request "
                      "to its last response (shared with C15)")
     chk.doc("R15.2", "see R15.1")
     c15.lock_graph(chk, repo)
+
+
+def addressed(chk, repo):
+    """R16.8: every SDO request names the entry the caller asked for: the
+    index field is `index`, the subindex field is `subindex` for every
+    subindex 0..255 and 1 for a complete-access request (None)"""
+    chk.doc("R16.8", "requests carry the index and subindex asked for")
+    n = 0
+    for fn in ("sdo_read", "sdo_write"):
+        sym = "ebpfcat.ethercat.Terminal." + fn
+        f = repo.func(sym)
+        ev = Evaluator(repo, f._module)
+        for c in calls_in(f, nested=True):
+            if not (isinstance(c.func, ast.Attribute) and c.func.attr
+                    == "mbx_send" and len(c.args) >= 6
+                    and str_const(c.args[1]) is not None
+                    and str_const(c.args[1]).startswith("HBHB")):
+                continue
+            n += 1
+            idx, sub = c.args[4], c.args[5]
+            oki = isinstance(idx, ast.Name) and idx.id == "index"
+            bad = []
+            notnone = has_fact(path_facts(c), "subindex is not None", True)
+            for v in (None, 0, 1, 2, 7, 255):
+                if v is None and notnone:
+                    continue
+                try:
+                    got = ev.eval(sub, {"subindex": v})
+                except (Unknown, Raised) as e:
+                    bad.append(f"subindex={v}: {e}")
+                    continue
+                want = 1 if v is None else v
+                if got != want:
+                    bad.append(f"subindex={v} -> {got}")
+            chk.ob("R16.8", sym, f"request #{n} addresses index and subindex "
+                   f"as given (`{unparse(sub)[:40]}`)", oki and not bad, c,
+                   ("index field is `" + unparse(idx) + "`; " if not oki
+                    else "") + ("; ".join(bad[:3]) + ": subindex 0 (the "
+                                "number-of-entries element of every record) "
+                                "is asked for as another entry, whose bytes "
+                                "come back unnoticed because only the index "
+                                "of the response is checked" if bad else
+                                "None -> 1 (complete access), else the "
+                                "subindex itself"))
+    chk.floor("R16.8", "SDO requests with an address", n, 5)
 
 
 def stmt_key(n):
